@@ -40,7 +40,9 @@ pub fn gen_op(r: &mut Rng, st: &Store, pool: &Pool, cfg: &HistCfg) -> Op {
     use Op::*;
     let live = st.live_handles();
     let b = cfg.refusal_bias;
-    let text = |r: &mut Rng| -> String { if r.chance(1, 5) { random_text(r, 3) } else { r.pick(&["h", "i", " ", "j k", ""]).to_string() } };
+    // empty strings are frequent on purpose: an empty text node next to another text node is where consolidation
+    // shortcuts go wrong
+    let text = |r: &mut Rng| -> String { if r.chance(1, 5) { random_text(r, 3) } else { r.pick(&["h", "i", " ", "j k", "", "", ""]).to_string() } };
     if live.is_empty() {
         return NewEl(*r.pick(&pool.names));
     }
@@ -287,7 +289,7 @@ pub fn main_for(pid: &str) {
     let steps = if a.tier == "thorough" { 40 } else { 30 };
     for k in 0..a.n {
         let mut r = base.fork(k as u64);
-        let gcfg = GenCfg { max_nodes: 10, max_depth: 3, max_fanout: 3, adjacent_text: false, empty_text: false, doc_root: 50, ..GenCfg::default() };
+        let gcfg = GenCfg { max_nodes: 10, max_depth: 3, max_fanout: 3, adjacent_text: false, empty_text: k % 3 == 0, doc_root: 50, ..GenCfg::default() };
         // the start forests: 1-3 trees in one Xot
         let mut tmp = Store::new();
         let pool = make_pool(&mut tmp.xot, &mut tmp.reg, true);
